@@ -114,14 +114,18 @@ pub fn gen(rng: &mut Rng, tier: Tier, out: &mut Vec<String>) {
         let (mut line, _, _) = header(rng, 'r', "fb", &flags, 1);
         let mut verts: Vec<Vec<f32>> = vec![];
         let mut tris = vec![];
+        let zslope = *rng.pick(&[0.5f32, 0.9, 1.0]);
+        let zoff = *rng.pick(&[0.5f32, 1.2, 1.9]) * zslope;
         for j in 0..ntris {
             for _ in 0..3 {
                 let mut p = if painter {
-                    // triangle j lives in its own depth slab: w in [1+j, 1.8+j], z/w fixed -> z increases with w
+                    // triangle j lives in its own depth slab: w in [1+j, 1.8+j]; clip z = a*w - b is
+                    // increasing in w (as under a perspective matrix) and, for the nearest slabs,
+                    // NEGATIVE (geometry between the near plane and about twice the near distance)
                     let w = 1.0 + j as f32 + rng.f32_in(0.0, 0.8);
                     let nx = rng.f32_in(-1.4, 1.4);
                     let ny = rng.f32_in(-1.4, 1.4);
-                    vec![nx * w, ny * w, 0.5 * w - 0.5, w]
+                    vec![nx * w, ny * w, zslope * w - zoff, w]
                 } else {
                     { let o = rng.chance(1, 2); gen_clip_vertex(rng, o).to_vec() }
                 };
